@@ -4,7 +4,7 @@
 use std::io;
 use std::sync::{Arc, Mutex};
 
-use raft_log::codeq::Decode;
+use raft_log::codeq::{Decode, Encode};
 
 #[derive(Debug, Clone, PartialEq, Eq, Default)]
 pub struct HT;
@@ -25,10 +25,42 @@ impl raft_log::Callback for Cb {
     }
 }
 
+/// The vote of the harness instantiation: (term, voted_for) with the PARTIAL order a Raft
+/// vote has (the crate only asks for `PartialOrd`): a higher term is greater, the same
+/// term and the same candidate are equal, the same term and different candidates are
+/// incomparable. Encoded as two big-endian u64 like the tuple.
+#[derive(Debug, Clone, PartialEq, Eq)]
+pub struct PVote(pub u64, pub u64);
+
+impl PartialOrd for PVote {
+    fn partial_cmp(&self, other: &Self) -> Option<std::cmp::Ordering> {
+        if self.0 != other.0 {
+            Some(self.0.cmp(&other.0))
+        } else if self.1 == other.1 {
+            Some(std::cmp::Ordering::Equal)
+        } else {
+            None
+        }
+    }
+}
+
+impl Encode for PVote {
+    fn encode<W: io::Write>(&self, w: W) -> Result<usize, io::Error> {
+        (self.0, self.1).encode(w)
+    }
+}
+
+impl Decode for PVote {
+    fn decode<R: io::Read>(r: R) -> Result<Self, io::Error> {
+        let (a, b) = <(u64, u64)>::decode(r)?;
+        Ok(PVote(a, b))
+    }
+}
+
 impl raft_log::Types for HT {
     type LogId = (u64, u64);
     type LogPayload = Vec<u8>;
-    type Vote = (u64, u64);
+    type Vote = PVote;
     type Callback = Cb;
     type UserData = Vec<u8>;
 
@@ -123,7 +155,7 @@ pub fn parse_state_record(t: &[&str]) -> raft_log::WALRecord<HT> {
 pub fn parse_record(t: &[&str]) -> raft_log::WALRecord<HT> {
     use raft_log::WALRecord as W;
     match t[0] {
-        "V" => W::SaveVote((pu(t[1]), pu(t[2]))),
+        "V" => W::SaveVote(PVote(pu(t[1]), pu(t[2]))),
         "A" => W::Append((pu(t[1]), pu(t[2])), unhex(t[3])),
         "C" => W::Commit((pu(t[1]), pu(t[2]))),
         "T" => W::TruncateAfter(parse_opair(t[1])),
@@ -146,7 +178,7 @@ macro_rules! rstate_str {
         let s = $s;
         format!(
             "{} {} {} {} {}",
-            $crate::proto::opair_str(s.vote()),
+            $crate::proto::opair_str(s.vote().map(|v| (v.0, v.1)).as_ref()),
             $crate::proto::opair_str(s.last()),
             $crate::proto::opair_str(s.committed()),
             $crate::proto::opair_str(s.purged()),
